@@ -76,6 +76,7 @@ type Contract struct {
 	Params      []string
 	Results     []string
 	Requires    []*Clause
+	Defines     []*Clause
 	Ensures     []*Clause
 	Modifies    []Expr
 	ModSrc      []string
@@ -538,7 +539,7 @@ func (lx *lexer) parsePostfix() Expr {
 //   spec name(Sort, ...) Sort
 //   smt { raw smt-lib }
 
-var kwClause = map[string]bool{"func": true, "requires": true, "ensures": true, "modifies": true, "loop": true, "pred": true,
+var kwClause = map[string]bool{"func": true, "defines": true, "assumes": true, "requires": true, "ensures": true, "modifies": true, "loop": true, "pred": true,
 	"ghost": true, "spec": true, "smt": true, "assumed": true, "inline": true, "bounds": true, "pure": true, "let": true, "note": true, "at": true}
 
 var reBlock = regexp.MustCompile(`(?s)/\*@(.*?)\*/`)
@@ -663,7 +664,7 @@ func (cs *ContractSet) parse(src, file string, line0 int) (err error) {
 		case "bounds":
 			cur.CheckBounds = true
 			cur.BoundsTags = lx.parseTags()
-		case "requires", "ensures":
+		case "requires", "ensures", "defines", "assumes":
 			if cur == nil {
 				return fmt.Errorf("%s:%d: clause outside func", file, t.line)
 			}
@@ -671,9 +672,18 @@ func (cs *ContractSet) parse(src, file string, line0 int) (err error) {
 			start := lx.p
 			e := lx.parseExpr()
 			cl := &Clause{E: e, Src: lx.srcOf(start, lx.p), Tags: tags, Line: t.line}
-			if t.s == "requires" {
+			switch t.s {
+			case "requires":
 				cur.Requires = append(cur.Requires, cl)
-			} else {
+			case "defines":
+				// definitional axiom of a ghost spec function: assumed by the function and by its callers
+				cur.Defines = append(cur.Defines, cl)
+			case "assumes":
+				// environment assumption about the function's inputs (data that entered from storage):
+				// assumed by the function AND by its callers, and printed in the evidence
+				cl.Src = "ASSUMED-INPUT-INVARIANT " + cl.Src
+				cur.Defines = append(cur.Defines, cl)
+			default:
 				cur.Ensures = append(cur.Ensures, cl)
 			}
 		case "let":
